@@ -1,7 +1,7 @@
 """Generic argument-form / history / layout / scale engine for every public function of teneva.
 
 One TABLE (harness/forms_table.py) describes, per exported callable, a small valid baseline call and the kind of every
-parameter.  Six metamorphic relations are derived from it mechanically (`f(x') == f(x)` where x' denotes the same
+parameter.  Eight metamorphic relations are derived from it mechanically (`f(x') == f(x)` where x' denotes the same
 mathematical input):
 
   R1 int-forms        int parameters as np.int64 / np.int32 / np.int16, number parameters as np.float64 / int, documented
@@ -13,6 +13,11 @@ mathematical input):
                       info / cache dictionaries equal after equal calls, default dictionaries carry nothing over
   R5 layouts          tensors / arrays C-contiguous, F-contiguous, non-contiguous views
   R6 scale            exact power-of-two rescaling against the documented degree of homogeneity
+  R7 integer-dtypes   index / shape / position parameters in every integer dtype that holds the values (mode sizes up to the
+                      dtype's limit, entries with a `big` generator) against int64
+  R8 defaults         every defaulted parameter passed explicitly with its documented default (harness/signature_pins.json),
+                      on the ordinary baseline and on a default-sensitive baseline (`dflt` generator)
+R4 is also run once per container / dtype form of every vector parameter (ndarray of exactly the target dtype, plain list).
 
 API (see harness/briefs/FORMS.md):
     search(tn, rng, pid, deep=False, budget_s=8.0) -> (n_eval, fails, coverage)
@@ -38,8 +43,10 @@ if __name__ == '__main__' or __package__ in (None, ''):
     sys.path.insert(0, os.path.dirname(os.path.dirname(os.path.abspath(__file__))))
 from harness import common as C  # noqa: E402
 
-RELATIONS = ['R1', 'R2', 'R3', 'R4', 'R5', 'R6']
-REL_NAME = dict(R1='int-forms', R2='flag-forms', R3='container-forms', R4='history', R5='layouts', R6='scale')
+RELATIONS = ['R1', 'R2', 'R3', 'R4', 'R5', 'R6', 'R7', 'R8']
+REL_NAME = dict(R1='int-forms', R2='flag-forms', R3='container-forms', R4='history', R5='layouts', R6='scale',
+                R7='integer-dtypes', R8='defaults')
+INT_DTYPES = ['int8', 'uint8', 'int16', 'uint16', 'int32', 'uint32', 'uint64']      # against int64
 TIME_KEYS = {'t'}            # wall-clock entries of info dictionaries
 TOLERATED_FORMS = {'array0', 'i8', 'u8', 'S64'}      # forms outside the documented types: may raise, must not silently differ
 TOL = 1e-10
@@ -63,10 +70,13 @@ class Entry:
     call: callable(tn, args) -> result for entries that are not a plain `getattr(tn, name)(**args)` (classes)
     """
     def __init__(self, name, file, props, gen, kinds, homog=None, inplace=None, alias=None, post=None, skip=(),
-                 call=None, neg=None, novar=(), tol=None, note='', rejects=False, invariant=None):
+                 call=None, neg=None, novar=(), tol=None, note='', rejects=False, invariant=None, big=None, dflt=None, syn=None):
         self.name, self.file, self.props, self.gen, self.kinds = name, file, list(props), gen, dict(kinds)
         self.homog, self.inplace, self.alias, self.post = homog, inplace, alias, post
         self.skip, self.call, self.neg, self.novar, self.tol, self.note = set(skip), call, neg or {}, set(novar), tol, note
+        self.syn = syn or {}        # {param: {spelling: equivalent documented spelling}}
+        self.big = big      # generator of cheap calls with indices / mode sizes up to the limits of the integer dtypes (R7)
+        self.dflt = dflt    # generator of a call that leaves parameters at their defaults in a regime where they matter (R8)
         self.invariant = invariant  # callable(tn, result, args) -> None | message: a history statement inside one call
         self.rejects = rejects      # the generator deliberately includes calls that the documentation rejects with ValueError
 
@@ -442,10 +452,43 @@ def short(o):
     return s if len(s) < 300 else s[:300] + '...'
 
 
-def make_args(tn, E, seed, size):
+def make_args(tn, E, seed, size, which='gen'):
     from harness import forms_table
     g = forms_table.G(tn, seed, size)
-    return E.gen(g)
+    return {'gen': E.gen, 'big': E.big, 'dflt': E.dflt}[which](g)
+
+
+_PINS = {}
+
+
+def documented_defaults(E):
+    """{param: value} from harness/signature_pins.json (the documented signature at the pinned head); mutable containers
+    and callables are left out"""
+    if 'pins' not in _PINS:
+        import json
+        f = os.path.join(C.VERIF, 'harness', 'signature_pins.json')
+        _PINS['pins'] = json.load(open(f)) if os.path.exists(f) else {}
+    rec = _PINS['pins'].get(E.name.split('.')[0])
+    out = {}
+    if not rec or E.call:
+        return out
+    for p, src in rec.get('defaults', {}).items():
+        try:
+            v = eval(src, {'np': np, 'None': None, 'True': True, 'False': False, '__builtins__': {}})
+        except Exception:
+            continue
+        if isinstance(v, (dict, list, set, np.ndarray)) or callable(v):
+            continue
+        out[p] = v
+    return out
+
+
+def _fits(v, dt):
+    a = np.asarray(v)
+    if a.size == 0 or a.dtype.kind not in 'iu':
+        return False
+    ii = np.iinfo(dt)
+    return int(a.min()) >= ii.min and int(a.max()) <= ii.max
 
 
 def signature_defaults(tn, E):
@@ -507,10 +550,58 @@ def _is_intlike(v):
     return isinstance(v, (int, np.integer)) and not isinstance(v, (bool, np.bool_))
 
 
-def variants(tn, E, rel, args, deep=False):
+def _vector_params(E, args):
+    """(param, target form) of every shape / index / option-vector parameter: the ndarray of exactly the dtype the function
+    converts to (np.asanyarray then hands back the caller's own object) and the plain list"""
+    out = []
+    for p, v in args.items():
+        k, o = E.kind(p), E.opts(p)
+        if (k in ('shape', 'index', 'opt') or 'vec' in o) and isinstance(v, (list, tuple, np.ndarray)):
+            a = np.asarray(v)
+            if a.dtype.kind not in 'iuf' or a.size == 0:
+                continue
+            integral = bool(np.all(a == np.round(a)))
+            if k == 'opt' and 'f' in o:
+                forms = ['f64']
+            elif k == 'opt':
+                forms = ['i64'] if integral else ['f64']
+            else:
+                forms = ['i64'] + (['f64'] if 'f' in o else [])
+            if isinstance(v, np.ndarray):
+                forms.append('list')
+            out += [(p, f) for f in forms if '-' + f not in o]
+    return out
+
+
+def variants(tn, E, rel, args, deep=False, seed=None, size=None):
     """list of variant descriptors (JSON-able lists) of relation `rel` applicable to the baseline arguments"""
     out = []
     dflt = signature_defaults(tn, E)
+    if rel == 'R7':
+        if not E.big or seed is None:
+            return []
+        big = make_args(tn, E, seed, size, 'big')
+        for p, v in big.items():
+            k, o = E.kind(p), E.opts(p)
+            if k in ('shape', 'index') or 'r7' in o:
+                if isinstance(v, (list, tuple, np.ndarray)) or _is_intlike(v):
+                    out += [[p, dt] for dt in INT_DTYPES if _fits(v, dt) and '-' + dt not in o]
+        return out
+    if rel == 'R8':
+        doc = documented_defaults(E)
+        if not doc or seed is None:
+            return []
+        for which in ('gen', 'dflt'):
+            if which == 'dflt' and not E.dflt:
+                continue
+            a = args if which == 'gen' else make_args(tn, E, seed, size, 'dflt')
+            if any(E.kind(p) == 'seed' and p not in a for p in doc):
+                continue        # an omitted seed means OS entropy: nothing to compare
+            miss = [p for p in doc if p not in a and E.kind(p) != 'dict']
+            if miss:
+                out.append([which, 'all'])
+                out += [[which, p] for p in miss]
+        return out
     if rel == 'R1':
         for p, v in args.items():
             k, o = E.kind(p), E.opts(p)
@@ -524,6 +615,8 @@ def variants(tn, E, rel, args, deep=False):
                     out.append([p, 'float'])
             if k == 'int' and 'neg' in o and _is_intlike(v) and p in E.neg:
                 out.append([p, 'negative'])
+            if p in E.syn and isinstance(v, str) and v in E.syn[p]:
+                out.append([p, 'synonym'])       # documented alternative spelling of a string option
             if k == 'seed' and _is_intlike(v) and 'gen' in o:
                 out.append([p, 'generator'])
             if k == 'float' and isinstance(v, (int, float)) and not isinstance(v, bool):
@@ -561,6 +654,8 @@ def variants(tn, E, rel, args, deep=False):
         out = [['same-objects']]
         if any(E.kind(p) == 'dict' and isinstance(dflt.get(p), dict) for p in args):
             out.append(['default-dicts'])
+        # the history statement on every container / dtype form of the vector parameters
+        out += [['form', p, f] for p, f in _vector_params(E, args) if (p, 'R4') not in E.novar]
     elif rel == 'R5':
         ps = [p for p, v in args.items() if E.kind(p) in ('tt', 'array') and (p, 'R5') not in E.novar and
               (isinstance(v, np.ndarray) or (isinstance(v, list) and v))]
@@ -594,6 +689,8 @@ def _apply_form(E, args, rel, var, dflt):
             new[p] = float(v)
         elif form == 'negative':
             new[p] = v - E.neg[p](args)
+        elif form == 'synonym':
+            new[p] = E.syn[p][v]
         elif form == 'float64':
             new[p] = np.float64(v)
         elif form == 'array0':
@@ -674,6 +771,37 @@ def eval_variant(tn, E, seed, size, rel, var):
         return None
     if rel == 'R4':
         return _history(tn, E, seed, size, var, dflt)
+    if rel == 'R7':
+        p, dt = var
+        a0 = make_args(tn, E, seed, size, 'big')
+        a0[p] = np.int64(a0[p]) if _is_intlike(a0[p]) else np.asarray(a0[p]).astype(np.int64)
+        base = run(tn, E, a0)
+        if base[0] == 'exc' and not (base[1] == 'ValueError' and E.rejects):
+            raise Skip(f'baseline raised {base[1]}: {base[2]}')
+        a1 = make_args(tn, E, seed, size, 'big')
+        a1[p] = getattr(np, dt)(a1[p]) if _is_intlike(a1[p]) else np.asarray(a1[p]).astype(dt)
+        pre = canon(a1[p])
+        got = run(tn, E, a1)
+        if outcome_canon(got) != outcome_canon(base):
+            return f'{p} as {dt}: {short(got)} instead of {short(base)} (int64)'
+        if canon(a1[p]) != pre:
+            return f'{p} as {dt}: the argument was modified by the call'
+        return None
+    if rel == 'R8':
+        which, what = var
+        doc = documented_defaults(E)
+        a0 = make_args(tn, E, seed, size, which)
+        base = run(tn, E, a0)
+        if base[0] == 'exc' and not (base[1] == 'ValueError' and E.rejects):
+            raise Skip(f'baseline raised {base[1]}: {base[2]}')
+        a1 = make_args(tn, E, seed, size, which)
+        add = {q: v for q, v in doc.items() if q not in a1 and E.kind(q) != 'dict' and (what == 'all' or q == what)}
+        a1.update(add)
+        got = run(tn, E, a1)
+        if outcome_canon(got) != outcome_canon(base):
+            return (f'documented default(s) passed explicitly ({", ".join(f"{q}={v!r}" for q, v in add.items())}): '
+                    f'{short(got)} instead of {short(base)} (parameters omitted)')
+        return None
     if rel == 'R5':
         return _layouts(tn, E, seed, size, var)
     if rel == 'R6':
@@ -686,6 +814,16 @@ class Skip(Exception):
 
 
 def _history(tn, E, seed, size, var, dflt):
+    if var[0] == 'form':
+        # the same statement with one vector parameter re-formed (ndarray of the target dtype / plain list)
+        _mk = globals()['make_args']
+
+        def make_args(tn_, E_, seed_, size_):       # noqa: F811 (shadows the module-level generator inside this call)
+            a = _mk(tn_, E_, seed_, size_)
+            a[var[1]] = _container(a[var[1]], var[2])
+            return a
+    else:
+        make_args = globals()['make_args']
     args = make_args(tn, E, seed, size)
     inpl = E.setof('inplace', args)
     okal = E.setof('alias', args)
@@ -931,7 +1069,7 @@ def search(tn, rng, pid, deep=False, budget_s=8.0, only=None, relations=None):
                 seed, size = seeds[E.name][rnd], sizes[rnd]
                 try:
                     args = make_args(tn, E, seed, size)
-                    vs = variants(tn, E, rel, args, deep)
+                    vs = variants(tn, E, rel, args, deep, seed, size)
                 except Exception as e:  # noqa: generator failure = table problem, reported, never a verdict
                     skipped.append(dict(function=E.name, relation=rel, seed=seed, size=size, why=f'generator: {e!r}'))
                     continue
